@@ -118,7 +118,8 @@ Definition parse_group (line : string) : option group_entry :=
   | [a; b; c; d] =>
       if negb (N.eqb group_fields 4) then None else
       match atoi_u32 c with
-      | Some gid => Some (mkGE a b gid (split_on (sep_char members_sep) d))
+      | Some gid => Some (mkGE a b gid (if group_empty_members_nil && String.eqb d "" then []
+                                         else split_on (sep_char members_sep) d))
       | None => None
       end
   | _ => None
